@@ -84,7 +84,7 @@ func limitMemory() {
 }
 
 func deepLimits() {
-	debug.SetMaxStack(1 << 30)
+	debug.SetMaxStack(1000000000) // Go's default on 64-bit
 	var rl syscall.Rlimit
 	if err := syscall.Getrlimit(syscall.RLIMIT_AS, &rl); err == nil && rl.Max >= 6<<30 && rl.Cur >= 6<<30 {
 		rl.Cur = 6 << 30
